@@ -85,6 +85,49 @@ def agrees(truth_i, given_i, pa, pb, method, ir_idx, active, via_main=False):
         return True
 
 
+def second_file(truth_i, st, method, ir_idx, active):
+    """a SECOND file of the truth's own kind (e.g. --class truth.py --class other.py --truth class) is a target like any other"""
+    truth_i, st, method, ir_idx = realize((truth_i, st, method, ir_idx))
+    with untraced():
+        from harness.syncenv import EXTRA, IRS, STALE, render
+        from lib.fsstub import FS
+
+        truth = KINDS[truth_i]
+        ir = IRS[ir_idx]()
+        files = {FILES[truth]: render(truth, ir, method)}
+        if st == 1:
+            files[EXTRA] = "import os\n\nX = 1\n"
+        elif st == 2:
+            files[EXTRA] = render(truth, STALE(), method)
+        fs = FS(files)
+        truth_ir = parse_target(truth, files[FILES[truth]], method)
+        truth_ir.pop("_internal", None)
+        other = [k for k in KINDS if k != truth][0]
+        try:
+            run_sync(fs, truth, (truth, other), method, extra=True)
+        except IndexError:
+            rt_ = (truth_ir.get("returns") or {}).get("return_type") or {}
+            if ("KF-C09-empty-return-default" in active and other == "argparse_function"
+                    and isinstance(rt_.get("default"), str) and rt_["default"] == ""):
+                return True
+            raise
+        if EXTRA not in fs.files:
+            return False
+        if truth != "class" and st == 2 and "KF-C09-stale-function" in active:
+            return True
+        if method and truth == "function" and st in (0, 1) and "KF-C09-method-created-toplevel" in active:
+            return True
+        ir_k = parse_target(truth, fs.files[EXTRA], method)
+        if ir_k is None:
+            return False
+        kind = RTK.get(truth, "method" if method else "function")
+        for where, code in iface_diffs(ir_k, truth_ir, kind, defaults_on=False):
+            if permitted(where, code, kind, truth_ir, chain=(kind,)) or tolerated(kind, where, code, truth_ir, {"emit_default_doc": False}, active):
+                continue
+            return False
+        return True
+
+
 def run_main(fs, truth, given, method):
     import io
     from contextlib import redirect_stdout
@@ -121,4 +164,9 @@ def obligations(tier, seed):
                     "non-truth target in {missing, empty, definition absent, stale, agreeing} and the interface description (pool of 2): exhaustive"
                     % (KINDS[t], "method" if m else "top-level function", "__main__.main(argv)" if via else "conformance.ground_truth"),
                     timeout=280 if tier == "quick" else 1200, path_timeout=120, funcs=FUNCS))
+    obs.append(Ob(name="second_file_of_truth_kind", params=[("t", "int"), ("st", "int"), ("m", "int"), ("i", "int")],
+                  pre=["0 <= t <= 2", "0 <= st <= 2", "0 <= m <= 1", "0 <= i <= 1"], body="H.second_file(t, st, m, i, {ACTIVE})",
+                  witness=(1, 0, 0, 0), kind="F",
+                  bounds="a second file listed under the truth's own kind, pre-state in {missing, definition absent, stale}, every truth kind, "
+                  "function|method, 2 descriptions", timeout=200, funcs=FUNCS))
     return obs
